@@ -551,7 +551,8 @@ func timeToInt64(ts *time.Time) int64 {
 
 func int64ToTime(ts int64) *time.Time {
 	if ts > 0 {
-		res := time.Unix(ts/1000, ts%1000).UTC()
+		// ts is in milliseconds, time.Unix wants seconds and nanoseconds.
+		res := time.Unix(ts/1000, (ts%1000)*1000000).UTC()
 		return &res
 	}
 	return nil
